@@ -19,6 +19,7 @@ CONSTANTS
   TTLMode = "stored"
   Admit = "rule"
   Dedup = TRUE
+  RefreshOwner = "asked"
   Alias = "none"
   DumpFields <- AllDump
   Insts = {1}
